@@ -105,8 +105,10 @@ struct Model {
   std::unique_ptr<MNode> build(int idx);
   int new_inst(int leaf) { return next_inst[leaf]++; }
   // returns true when the callable of node nid throws on this call
+  int stop_call_node = -1, stop_call_idx = -1;
   bool call(int nid) {
     int c = calls[nid]++;
+    if (nid == stop_call_node && c == stop_call_idx) request_stop();
     if (nid == fault_node && c == fault_call) { fault_fired = true; return true; }
     return false;
   }
